@@ -196,12 +196,20 @@ def examine_threads(case):
     env = get_env("threads-shared")
     errors = []
     barrier = threading.Barrier(8)
-    # half of the jobs use one compiled query object shared by all threads (each thread still advances its own
-    # iterator); the other half compile concurrently on the shared environment
-    shared = {i: env.compile(j["q"]) for i, j in enumerate(jobs) if i % 2 == 0}
-    # str() of a compiled query is part of its behaviour: the text each thread gets for a shared query (first
-    # serialisation included) must be the one a separately compiled copy gives sequentially
-    expected_str = [str(env.compile(j["q"])) for j in jobs]
+    if case.get("fresh_env"):
+        # an environment nobody has used yet: its very first compilations (and first uses of its functions) are
+        # made by all threads at once
+        import jsonpath_rfc9535 as jp
+        expected_str = [str(env.compile(j["q"])) for j in jobs]
+        env = jp.JSONPathEnvironment()
+        shared = {}
+    else:
+        # half of the jobs use one compiled query object shared by all threads (each thread still advances its own
+        # iterator); the other half compile concurrently on the shared environment
+        shared = {i: env.compile(j["q"]) for i, j in enumerate(jobs) if i % 2 == 0}
+        # str() of a compiled query is part of its behaviour: the text each thread gets for a shared query (first
+        # serialisation included) must be the one a separately compiled copy gives sequentially
+        expected_str = [str(env.compile(j["q"])) for j in jobs]
 
     def worker(tid):
         try:
@@ -469,12 +477,16 @@ def run_shard(spec, shard):
         q = "$[?length(@) == %d]" % r.randrange(0, 4)
         jobs.append({"q": q, "ast": abnf.parse(q), "doc": 0})
         case = {"kind": "threads", "jobs": jobs, "docs": [doc], "reps": 6}
-        shard.case(key=(jobs, doc), nontrivial=True, classes={"thread-round", "thread-round:function-calls"}, sample=None)
+        if r.random() < 0.5:
+            case["fresh_env"] = True
+            case["reps"] = 1
+        shard.case(key=(jobs, doc, case.get("fresh_env")), nontrivial=True,
+                   classes={"thread-round", "thread-round:function-calls"} | ({"thread-round:fresh-environment"} if case.get("fresh_env") else set()), sample=None)
         f = examine(case)
         if f:
             shard.fail(f["bucket"], case, f)
 
-    drive(rng(), max(2, spec["threads"] // 2), spec["seed"] + 2, rbody)
+    drive(rng(), max(3, spec["threads"] * 2 // 3), spec["seed"] + 2, rbody)
 
     def ebody(r):
         # every thread evaluates comparisons between the SAME large containers of one shared document at the same
